@@ -1062,9 +1062,13 @@ def neutral_compare(st, base_atoms, opt_atoms, flags, single=None):
         same_shape = [(a["name"], a["resname"], a["num"][3], a["num"][4]) for a in b] == [(a["name"], a["resname"], a["num"][3], a["num"][4]) for a in o]
         heavy_same = same_shape and all(x["num"][:3] == y["num"][:3] for x, y in zip(b, o) if not is_h(x))
         if same_shape and heavy_same:
-            near = min((min_dist(b, gb[t]) for t in neutralised if t in gb), default=1e9)
+            # distance to EVERY terminus the flag patches (all residues in the flagged roles), not only to
+            # those whose printed atoms changed: a one-residue chain under --neutralc is patched NEUTRAL-CTERM
+            # (gains HO) but keeps the name N<res>, under which HO/OXT are not parameterised and not printed -
+            # its output is identical although the optimiser sees a different donor
+            near = min((min_dist(b, gb[t]) for t in allowed if t in gb), default=1e9)
             cond = "within-optimiser-neighbourhood-of-neutralised-terminus" if near <= 10.0 else "remote-from-every-neutralised-terminus"
-            out.append(({"site": "hydrogens.optimize_hydrogens", "option": flags, "field": "hydrogen-positions-only", "condition": cond, "where": where}, f"{where} residue {b[0]['resname']} {k}: only hydrogen positions differ ({near:.1f} A from the neutralised terminus)"))
+            out.append(({"site": "hydrogens.optimize_hydrogens", "option": flags, "field": "hydrogen-positions-only", "condition": cond, "where": where}, f"{where} residue {b[0]['resname']} {k}: only hydrogen positions differ ({near:.1f} A from the nearest terminus the flag patches)"))
         else:
             what = "atom-names" if [(a["name"], a["resname"]) for a in b] != [(a["name"], a["resname"]) for a in o] else ("charge-or-radius" if not same_shape else "heavy-atom-coordinates")
             out.append(({"site": "Biomolecule.set_termini/apply_patch", "option": flags, "field": f"{where}-residue-changed:{what}"}, f"{where} residue {b[0]['resname']} {k} changed ({what}) under --neutral{flags}"))
